@@ -305,6 +305,15 @@ func ParentMain(propID, tier string, seed int64, workerBin string) int {
 		}
 	}
 
+	if os.Getenv("VERIF_DUMP") != "" {
+		if f, err := os.Create(filepath.Join(root, "scratch", "dump-"+propID+".jsonl")); err == nil {
+			for _, v := range fresh {
+				b, _ := json.Marshal(v)
+				f.Write(append(b, '\n'))
+			}
+			f.Close()
+		}
+	}
 	// replay files + VIOLATION lines (deduplicated by key, first witness each, capped)
 	byKey := map[string]int{}
 	var printed int
